@@ -208,11 +208,17 @@ func mergePossibleTypes(sources []*ast.Schema, mergedTypes map[string]*ast.Defin
 func mergeRootObjects(aTypes, bTypes map[string]*ast.Definition, a, b *ast.Definition) (*ast.Definition, error) {
 	var fields ast.FieldList = a.Fields
 	for _, f := range b.Fields {
-		if common.IsBuiltinName(f.Name) || isNodeField(f) {
+		if common.IsBuiltinName(f.Name) {
 			continue
 		}
 
-		if rf := fields.ForName(f.Name); rf != nil {
+		rf := fields.ForName(f.Name)
+		// the relay node field may be declared by every service: keep one of them
+		if rf != nil && isNodeField(f) && isNodeField(rf) && isSameSignature(rf, f) {
+			continue
+		}
+
+		if rf != nil {
 			return nil, fmt.Errorf("overlapping root types fields %s : %s", a.Name, f.Name)
 		}
 		fields = append(fields, f)
